@@ -14,7 +14,12 @@ def _run_chunk(exe, path, env, timeout):
         return "timeout", (e.stdout or b"").decode("ascii", "replace"), (e.stderr or b"").decode("utf-8", "replace")
 
 
-LAGS = [0, 2500, 0, 61000, 0, 90000000, 0, 999]
+LAGS = [0, 2500, 0, 61000, 0, 90000000, 3456000000, 999]
+
+
+def tz_of_case(index, chunk, tzs):
+    """the time zone the chunk containing case #index ran in (mirrors run_cases)"""
+    return tzs[((index // chunk) // 2) % len(tzs)] if tzs else "UTC"
 
 
 TZS = ["UTC", "JST-9", "UTC", "<-0330>3:30", "UTC", "CET-1CEST,M3.5.0,M10.5.0/3", "UTC", "EST5EDT,M3.2.0,M11.1.0"]
